@@ -237,7 +237,7 @@ class mm_reader {
                 Idx beg = ptr[i];
                 Idx end = ptr[i+1];
 
-                amgcl::detail::sort_row(&col[0] + beg, &val[0] + beg, end - beg);
+                amgcl::detail::sort_row(col.data() + beg, val.data() + beg, end - beg);
             }
 
             return std::make_tuple(chunk, m);
